@@ -90,12 +90,17 @@ class IsoDepInitiator(object):
             pfb = pack('B', (0x02, 0x12)[more] | self.pni)
             data = pfb + command[offset:offset+self.miu]
 
+            n_retransmit = 0
             for i in itertools.count(start=1):  # pragma: no branch
                 try:
                     data = self.clf.exchange(data, timeout)
                     if len(data) == 0:
                         raise nfc.clf.TransmissionError
                     if data[0] == 0xA2 | (~self.pni & 1):
+                        n_retransmit += 1
+                        if n_retransmit > 5:
+                            log.error("ISO-DEP too many retransmissions")
+                            raise Type4TagCommandError(nfc.tag.PROTOCOL_ERROR)
                         log.debug("ISO-DEP retransmit after ack")
                         data = pfb + command[offset:offset+self.miu]
                         continue
